@@ -87,12 +87,16 @@ def run(ctx):
                 rep("body-order", "bodies ran %s, spec %s" % (bodies, want_bodies))
             mods = c["mods"]
             if c.get("more"):
-                # three more probe rows: sibling call from a handler block, building the module's type, a method of that type
-                for row, (what, ok) in zip(d[-3:], (("handler", lambda m: SHORT[m] + "-help"), ("construct", lambda m: SHORT[m]), ("type-method", lambda m: SHORT[m] + "-help"))):
+                # four more probe rows: sibling call from a handler block, building the module's type, a method of that type, a method
+                # that calls what ITS module imported (the methods of the modules it imports, a library function)
+                deps = lambda m: sorted(set(e[1] for e in v["edges"] if e[0] == m))
+                uses = lambda m: "+".join(["T"] + [SHORT[y] + "-help" for y in deps(m)] + (['{"k":1}'] if c.get("libs") else []))
+                for row, (what, ok) in zip(d[-4:], (("handler", lambda m: SHORT[m] + "-help"), ("construct", lambda m: SHORT[m]), ("type-method", lambda m: SHORT[m] + "-help"),
+                                                    ("uses-its-imports", uses))):
                     want_row = [ok(m) if m in v["main"] else "ERR" for m in mods]
                     if row != want_row:
                         rep("home-module-" + what, "probe (%s) gave %s, spec %s: code of an imported module resolves its own module's names everywhere" % (what, row, want_row))
-                d = d[:-3]
+                d = d[:-4]
             probe = d[-1] if d else []
             want_probe = [(SHORT[m] + "-help") if m in v["main"] and m not in (c.get("hollow") or []) else "ERR" for m in mods]
             if probe != want_probe:
@@ -112,7 +116,7 @@ def run(ctx):
                rule="all 512 digraphs (self-loops included) on three imported modules x all 15 ordered non-empty import lists of the main file (7680 runs), all 65536 digraphs on FOUR "
                     "imported modules x four import lists (TLC checks the invariants on all 262144; quick replays a seeded 6000 of them, thorough all), plus all digraphs on two modules with a missing third one (576): TLC runs the depth-first load machine (invariants: body at most once, imports before body, circular error iff a cycle "
                     "is reachable - against an independent transitive-closure definition) and emits body trace and result; each vector becomes a directory of .zn files with "
-                    "1-3 path segments, executed with LoadFile().Execute: body order/multiplicity, error code 63/60, and four probes per module (an imported method, a handler block of an imported method, a body "
-                    "constructing the module's type and a method of that type must all be able to use their own module's names; modules not imported by main are not visible); the three-module digraphs again with one module file made of import statements only, and with the library 《@JSON》 imported by every file; plus 8 export/read-only/selective-import probe programs",
+                    "1-3 path segments, executed with LoadFile().Execute: body order/multiplicity, error code 63/60, and five probes per module (an imported method, a handler block of an imported method, a body "
+                    "constructing the module's type and a method of that type must all be able to use their own module's names, and a method that calls what its module imported - methods of the modules it imports, a library function - gives from the importer what it gives at home; modules not imported by main are not visible); the three-module digraphs again with one module file made of import statements only, and with the library 《@JSON》 imported by every file; plus 8 export/read-only/selective-import probe programs",
                spec_outcomes=outcomes)
     return cov, ["import order inside a module is alphabetical (the generator writes it that way)", "four modules: exhaustive in the thorough tier, a TLC-seeded sample in the quick tier"]
